@@ -53,3 +53,12 @@ Example C01_example :
                 {| s_name := bs "x"; s_flag := 4; s_pos := 0%nat; s_cigar := [(OM,2%nat)]; s_seq := bs "GG" |} ] 0%nat (-1) (-1) false
   = Ok (bs ">q" ++ [10] ++ bs "--ACG--TT---" ++ [10]).
 Proof. vm_compute. reflexivity. Qed.
+
+(* composition: the row of a query block before the flank/pad rewrite has the reference length and, at EVERY reference
+   position, is the flattening (C01_flatten_conflict / C01_flatten_priority) of the cells its records' CIGARs align there *)
+Theorem C01_block_row_spec : forall reflen block raw, block <> [] -> seq_from_block reflen block = Some raw ->
+  length raw = reflen /\
+  forall i, (i < reflen)%nat ->
+    nth i raw 0 = nuc_from_site (map (fun r => cell_byte (aligned (s_cigar r) 0 (s_pos r) (s_seq r) i)) block).
+Proof. exact toma_block_row_spec. Qed.
+Print Assumptions C01_block_row_spec.
